@@ -11,6 +11,7 @@ EXPLANATION = (
     "through return-value summaries of workspace functions; (2) Pager::ensure_allocated (force-allocation of a caller-chosen page) is called only "
     "from pager.rs and the WAL page-replay helper. Page-content correctness is not decided."
     " C18.3: the B-tree reachability walk used by vacuum calls every primitive pointer accessor of an index page (the per-cell one inside a loop) and queues each result."
+    " C18.4: every Pager method that sets an allocation bit also assigns Meta.next_page_id."
 )
 
 TRANSPARENT = ("nervusdb_storage::pager::PageId::new", "nervusdb_storage::pager::PageId::as_u64", "core::convert::From::from",
